@@ -1,7 +1,8 @@
 SPECIFICATION Spec
-CONSTANTS KeyedBy = "full" MaxHist = 4
+CONSTANTS KeyedBy = "full" MaxHist = 4 GraphLen = 2 IndexMemo = "none"
 INVARIANT TypeOK
 INVARIANT FreshIsOwn
+INVARIANT CycleComplete
 INVARIANT HistoryFreeStruct
 PROPERTY Monotone
 CHECK_DEADLOCK FALSE
